@@ -4,6 +4,7 @@ import (
 	"flag"
 	"fmt"
 	"os"
+	"runtime/debug"
 	"strings"
 	"time"
 )
@@ -31,7 +32,8 @@ func main() {
 					code = 2
 					return
 				}
-				panic(r)
+				fmt.Printf("BROKEN: analyser panic: %v\n%s\n", r, debug.Stack())
+				code = 2
 			}
 		}()
 		switch {
